@@ -325,6 +325,9 @@ type hydra struct {
 	// a swampot, különben képesek lennének egyszerre létrehozni, ugyanazt a swampot. Így ha az egyik summonolja a swampot,
 	// akkor meg kell várja a másik, hogy az első visszakapja azt.
 	summoningSwamps sync.Map
+	// summonMu makes "look the wait slot up and count myself on it" and "give my count back and
+	// drop the slot when nobody is left" atomic with respect to each other.
+	summonMu sync.Mutex
 
 	// interfaces
 	elysiumInterface  safeops.Safeops
@@ -393,8 +396,25 @@ func (h *hydra) SummonSwamp(ctx context.Context, islandID uint64, swampName name
 	// if the ok is true then the swamp is already summoning, so we need to wait for the other process to finish the summoning process
 	// if the ok is false then the swamp is not summoning, so we can start the summoning process and store the swamp in the map
 	// immediately
+	// Every caller counts itself on the slot together with the lookup, and gives the count back
+	// when it leaves (release). The slot is dropped from the map only by the last one out, so a
+	// caller can never be left holding a slot that later arrivals no longer find.
+	h.summonMu.Lock()
 	result, _ := h.summoningSwamps.LoadOrStore(swampName.Get(), newSwampWaiter())
 	waiter, _ := result.(*SwampWaiter)
+	atomic.AddInt32(&waiter.count, 1)
+	h.summonMu.Unlock()
+	release := func() {
+		h.summonMu.Lock()
+		atomic.AddInt32(&waiter.count, -1)
+		if atomic.LoadInt32(&waiter.count) == 0 {
+			h.summoningSwamps.Delete(swampName.Get())
+			if verifhook.Enabled {
+				verifhook.Point("summon.leave.del", ctx, swampName.Get(), waiter)
+			}
+		}
+		h.summonMu.Unlock()
+	}
 	if verifhook.Enabled {
 		verifhook.Point("summon.looked", ctx, swampName.Get(), waiter)
 	}
@@ -407,12 +427,12 @@ func (h *hydra) SummonSwamp(ctx context.Context, islandID uint64, swampName name
 			// Ha a kontextus megszakad, jelezzük a többi várakozó goroutinnak, hogy ne várjanak tovább
 			waiter.cond.Broadcast()
 			waiter.cond.L.Unlock()
+			release()
 			if verifhook.Enabled {
 				verifhook.Point("summon.giveup", ctx, swampName.Get(), waiter)
 			}
 			return nil, ctx.Err() // Visszatérünk a kontextus hibaüzenetével
 		default:
-			atomic.AddInt32(&waiter.count, 1)
 			if verifhook.Enabled {
 				verifhook.Point("summon.wait", ctx, swampName.Get(), waiter)
 			}
@@ -434,17 +454,10 @@ func (h *hydra) SummonSwamp(ctx context.Context, islandID uint64, swampName name
 		if verifhook.Enabled {
 			verifhook.Point("summon.leave.unready", ctx, swampName.Get(), waiter)
 		}
-		// csökkentjük a várakozó goroutinok számát
-		atomic.AddInt32(&waiter.count, -1)
+		// give our count back; the last one out removes the slot from the map
+		release()
 		if verifhook.Enabled {
 			verifhook.Point("summon.leave.dec", ctx, swampName.Get(), waiter)
-		}
-		// ha nincs több várakozó goroutin, akkor töröljük a várakozó mapből a swampot
-		if atomic.LoadInt32(&waiter.count) == 0 {
-			h.summoningSwamps.Delete(swampName.Get())
-			if verifhook.Enabled {
-				verifhook.Point("summon.leave.del", ctx, swampName.Get(), waiter)
-			}
 		}
 	}()
 
@@ -1106,4 +1119,3 @@ func (h *hydra) infoCallbackFunction(si *swamp.Info) {
 	}
 
 }
-
